@@ -42,11 +42,26 @@ PASS = {"core::result::Result::ok": {"Ok": "Some", "Err": "None"},
         "core::option::Option::as_mut": None}
 
 
+class _Stack(list):
+    """work list that drops successors reached over a removed edge (the current block is set by the walker)"""
+
+    def __init__(self, removed):
+        super().__init__()
+        self.removed = set(removed)
+        self.cur = None
+
+    def append(self, item):
+        if self.cur is not None and (self.cur, item[0]) in self.removed:
+            return
+        super().append(item)
+
+
 class Result:
     def __init__(self):
         self.exits = []          # (state, variants of the returned value or None, block)
         self.budget_hit = False
         self.ran = set()         # closures whose bodies were walked as part of a combinator call
+        self.visited = set()     # blocks reached on some feasible path
 
 
 def _freeze(env):
@@ -65,21 +80,24 @@ def _val(env, op):
     return env.get(p["l"])
 
 
-def explore(prog, fn, state0, on_call, on_return=None, max_states=60000, _depth=0, env0=None):
+def explore(prog, fn, state0, on_call, on_return=None, max_states=60000, _depth=0, env0=None, removed_edges=()):
     """walk the paths of fn.  on_call(call, state, env_lookup) -> None (no effect) | list of (state', variants or None):
     alternatives for the outcome of that call (`variants`: the Result / Option variants the destination can hold, or a
     truth value as ("B", "0"/"1")).  Returns a Result with the exits."""
     res = Result()
     calls = {c.bb: c for c in fn.calls()}
     seen = set()
-    stack = [(0, _freeze(env0 or {}), state0)]
+    stack = _Stack(removed_edges)
+    stack.append((0, _freeze(env0 or {}), state0))
     n = 0
     while stack:
         bb, envt, st = stack.pop()
+        stack.cur = bb
         key = (bb, envt, st)
         if key in seen:
             continue
         seen.add(key)
+        res.visited.add(bb)
         n += 1
         if n > max_states:
             res.budget_hit = True
@@ -246,12 +264,22 @@ def explore(prog, fn, state0, on_call, on_return=None, max_states=60000, _depth=
                     names = UNDISCR[src[1]]
                     listed = {x: y for x, y in t["arms"]}
                     known = env.get(src[0])
+                    # a value that comes from outside (a parameter, a captured variable) keeps its variant along a path:
+                    # the second `if let Some(..) = extra` agrees with the first
+                    ok_ = flow.origins(fn, {"cp": {"l": src[0]}})
+                    akey = None
+                    if ok_ and all(o.kind == "arg" for o in ok_):
+                        akey = "argv:" + ";".join(sorted("%s.%s" % (o.arg, ".".join(o.proj)) for o in ok_))
+                        if known is None and akey in env:
+                            known = env[akey]
                     for dv, name_ in names.items():
                         if known is not None and known[0] == "V" and name_ not in known[1]:
                             continue
                         x = listed.get(dv, t["otherwise"])
                         e2 = dict(env)
                         e2[src[0]] = ("V", frozenset([name_]))
+                        if akey is not None:
+                            e2[akey] = ("V", frozenset([name_]))
                         al = env.get("alias:%d" % src[0])
                         if al is not None:
                             e2[al[1]] = ("V", frozenset([name_]))
